@@ -450,6 +450,15 @@ func permCases() []permCase {
 // ---------------------------------------------------------------------------------------------
 // A2: PRNG histories
 
+// planForDriven is planFor for the deterministic driver of shim.go, which reads before a request's
+// buffer can overflow: there a response may also have more pages than MaxPending.
+func planForDriven(rnd *mon.Rand, maxPending int) plan {
+	if rnd.Intn(10) == 0 {
+		return plan{Kind: kPaged, Pages: maxPending + 1 + rnd.Intn(2*maxPending+1)}
+	}
+	return planFor(rnd, maxPending, true)
+}
+
 func planFor(rnd *mon.Rand, maxPending int, allowPaged bool) plan {
 	if allowPaged && rnd.Intn(3) == 0 {
 		return plan{Kind: kPaged, Pages: 1 + rnd.Intn(maxPending)}
@@ -502,7 +511,7 @@ func runPrngHistory(c *mon.Ctx, index int) {
 				k = N
 			}
 			for len(s.live) < k {
-				if s.enqueue(planFor(rnd, maxPending, true), newID()) == nil {
+				if s.enqueue(planForDriven(rnd, maxPending), newID()) == nil {
 					break
 				}
 			}
@@ -519,7 +528,7 @@ func runPrngHistory(c *mon.Ctx, index int) {
 			x := rnd.Intn(100)
 			switch {
 			case x < 40 && len(s.live) < N:
-				s.enqueue(planFor(rnd, maxPending, true), newID())
+				s.enqueue(planForDriven(rnd, maxPending), newID())
 				track()
 			case x < 85 && len(s.live) > 0:
 				s.deliverNext(s.live[rnd.Intn(len(s.live))])
@@ -545,10 +554,10 @@ func runPrngHistory(c *mon.Ctx, index int) {
 				var nq *shimReq
 				if explicit || old.explicit {
 					if _, used := s.inUse[old.rl.sid]; !used {
-						nq = s.enqueue(planFor(rnd, maxPending, true), old.rl.sid)
+						nq = s.enqueue(planForDriven(rnd, maxPending), old.rl.sid)
 					}
 				} else {
-					nq = s.enqueue(planFor(rnd, maxPending, true), 0)
+					nq = s.enqueue(planForDriven(rnd, maxPending), 0)
 				}
 				track()
 				s.lateDup(old, rnd.Intn(3) == 0)
